@@ -13,8 +13,21 @@ def run(tier, seed):
     results += pool.run_tasks("checks.parser_common:valid_task", PC.valid_tasks(tier, seed, ORACLES, layouts=["upper", "crlf"]))
     results += pool.run_tasks("checks.parser_common:comment_task", PC.comment_tasks(tier, ORACLES))
     cov, viols, harness = PC.assemble(results)
+    # long but trivially valid scripts (sizes around every power of two / ten): must be accepted through every entry point
+    from . import c03
+    rl = pool.run_tasks("checks.c03:ladder_task", sorted([(m, 8, S, "C01") for m in ("bytes", "file") for S in c03.ladder_sizes(tier)], key=lambda t: -t[2]))
+    nl = sum(r["n"] for r in rl)
+    for r in rl:
+        viols.extend(r["violations"])
+    cov["transitions"] += nl
+    cov["traces_validated_against_impl"] += nl
+    cov["evaluations"] += nl
+    cov["size_ladder"] = dict(sizes=c03.ladder_sizes(tier), line_lengths=[8], modes=["bytes", "file"], executions=nl)
     return dict(violations=viols, coverage=cov, harness_errors=harness, assumptions=PC.ASSUMPTIONS)
 
 
 def replay(payload):
+    if payload.get("case", {}).get("ladder"):
+        from . import c03
+        return c03.replay(payload)
     return PC.replay_text(payload, ORACLES)
